@@ -12,6 +12,7 @@ lake workspace, so concurrent checks do not interfere).
   ControlThread.is_max_uptime_reached (C08)                 Bookkeep.uptimeReached
   ThreadController.is_pause / is_active (C17, C02)          negation of the resume / shutdown event
   EnvStep.done (C20)                                        terminated || truncated
+  Trainer.is_trainable (C13; effects declared)              the decision of Trainer.Tr.isTrainable
 
 Outcome per function: `tied` (the theorem checks), `unavailable` (the function left the translatable
 subset or renamed what it reads: no claim, the dynamic correspondence still covers it), or a
@@ -36,6 +37,7 @@ import Pamiq.Model.Models
 import Pamiq.Model.Clock
 import Pamiq.Model.Sched
 import Pamiq.Model.Bookkeep
+import Pamiq.Model.Trainer
 namespace Pamiq.Gen
 open Pamiq
 """
@@ -44,6 +46,9 @@ STATUS_NAME = """def statusName : WebQ.Status → String
   | .active => "ACTIVE" | .pausing => "PAUSING" | .paused => "PAUSED" | .resuming => "RESUMING"
   | .shuttingDown => "SHUTTING_DOWN"
 """
+
+# side effects of a function that do not enter its value (declared, so that nothing is dropped silently)
+EFFECTS = {"isTrainable": ("update", "assign:_previous_training_time")}
 
 EXPECTED = {
     "getCurrentStatus": (("is_shutdown","Bool"),("is_pause","Bool"),("is_resume","Bool"),("check_all_threads_paused","Bool"),("check_any_threads_paused","Bool")),
@@ -57,6 +62,7 @@ EXPECTED = {
     "controllerIsPause": (("is_resume","Bool"),),
     "controllerIsActive": (("is_shutdown","Bool"),),
     "envStepDone": (("terminated","Bool"),("truncated","Bool")),
+    "isTrainable": (("training_condition_data_user_is_none","Bool"),("len_data_user","Rat"),("min_buffer_size","Rat"),("count_data_added_since","Rat"),("min_new_data_count","Rat")),
 }
 
 # (property ids, source, class, function, lean name, enums, extra defs, theorem text)
@@ -133,6 +139,27 @@ theorem controllerIsPause_is_not_resume (r : Bool) : controllerIsPause { is_resu
      """/-- The loop guard's activity flag is the negation of the shutdown event (`Proto.bReadShutdown`). -/
 theorem controllerIsActive_is_not_shutdown (sd : Bool) : controllerIsActive { is_shutdown := sd } = !sd := rfl
 """),
+    (("C13",), "trainer/base.py", "Trainer", "is_trainable", "isTrainable", (), "",
+     """/-- The trainability decision of the source (ignoring its declared effects: the hand-over `update()` and the
+marker assignment) is the model's: both thresholds with `>=`, an unconditioned trainer always trainable. -/
+theorem isTrainable_is_model (len cnt : Nat) (ms mn : Int) :
+    isTrainable { training_condition_data_user_is_none := false, len_data_user := ((len : Int) : Rat), min_buffer_size := (ms : Rat), count_data_added_since := ((cnt : Int) : Rat), min_new_data_count := (mn : Rat) } =
+      (decide ((len : Int) ≥ ms) && decide ((cnt : Int) ≥ mn)) := by
+  unfold isTrainable
+  simp only [Bool.false_eq_true, if_false, ge_iff_le, Rat.intCast_le_intCast]
+
+theorem isTrainable_unconditioned (a b c d : Rat) :
+    isTrainable { training_condition_data_user_is_none := true, len_data_user := a, min_buffer_size := b, count_data_added_since := c, min_new_data_count := d } = true := rfl
+
+/-- ... which is the decision `Trainer.Tr.isTrainable` takes on the updated data user. -/
+theorem isTrainable_decision (t : Trainer.Tr) (us : Trainer.Users) (now : Rat) (k : String) (u : Trainer.DataUser)
+    (d : Trainer.Decision) (hc : t.cond = some k) (hu : us.get k = some u) (h : t.isTrainable us now = .ok d) :
+    d.trainable = isTrainable { training_condition_data_user_is_none := false, len_data_user := ((u.update.len : Int) : Rat), min_buffer_size := (t.minSize : Rat), count_data_added_since := ((Trainer.countSince u.update.ts t.prev : Int) : Rat), min_new_data_count := (t.minNew : Rat) } := by
+  rw [isTrainable_is_model]
+  unfold Trainer.Tr.isTrainable at h
+  simp only [hc, hu] at h
+  split at h <;> (cases h; simp_all)
+"""),
     (("C20",), "gym/types.py", "EnvStep", "done", "envStepDone", (), "",
      """/-- An episode has ended iff the step was terminated or truncated (the test of `Gym.affect`). -/
 theorem envStepDone_is_or (t u : Bool) : envStepDone { terminated := t, truncated := u } = (t || u) := by
@@ -149,7 +176,7 @@ def generate(repo: Path, props: tuple[str, ...] | None = None):
         if props is not None and not (set(ps) & set(props)):
             continue
         try:
-            g = T.translate(repo, rel, cls, fn, name, enums)
+            g = T.translate(repo, rel, cls, fn, name, enums, EFFECTS.get(name, ()))
         except T.Untranslatable as e:
             skipped.append((f"{cls}.{fn}", str(e)))
             continue
